@@ -1,7 +1,94 @@
-(** C03 - statements follow (work in progress in this commit) *)
+(** C03 - A refused or hook-vetoed structural change leaves the whole forest
+    untouched.  The full statement is FALSE of the faithful model (and of the
+    code: known findings KF-C03-1..5); what is proved is the exact boundary
+    for the parent setter, the part of the children setter that is atomic, and
+    the refutations.  Only statements; proofs are [exact <lemma>] or a
+    computation on a concrete witness. *)
 Require Import AT.Model.Base AT.Model.Heap AT.Model.Mutate AT.Spec.MutSpec.
+Require AT.Proofs.MutParent AT.Proofs.MutChildren.
+Import AT.Proofs.MutParent AT.Proofs.MutChildren.
 
-Theorem C03_noop_example :
-  fst (run_op true false no_faults reentry_fuel (SetParent 1 (VNode 0)) (start (attach_links (init 2) 1 0))) = Ok tt.
-Proof. reflexivity. Qed.
-Print Assumptions C03_noop_example.
+(** the full statement, kept visible: every refusal and every pre-hook veto of
+    any of the three assignments restores every link *)
+Definition C03_full : Prop :=
+  forall typed asrt faults fuel o h r s',
+    (match o with Construct _ _ => False | _ => True end) ->
+    Inv h -> valid_op (length h) o ->
+    run_op typed asrt faults fuel o (start h) = (r, s') ->
+    forall e, r = Err e ->
+      (e = TreeError \/ e = LoopError \/ e = TypeError \/
+       exists i k, e = HookExn i /\ kind_at (log s') i = Some k /\ is_pre k = true) ->
+      heap_of s' = h.
+
+(** parent assignment, any state, any fault oracle: a refusal (TreeError,
+    LoopError; AttributeError for LightNodeMixin's non-node), a _pre_detach
+    veto, or a _pre_attach veto of a node that had no parent leaves every link
+    exactly as it was *)
+Theorem C03_parent_guarded : forall typed asrt faults n v h r s',
+  set_parent typed asrt faults n v (start h) = (r, s') ->
+  forall e, r = Err e ->
+    (e = TreeError \/ e = LoopError \/ e = AttributeError \/
+     exists i, e = HookExn i /\
+       (kind_at (log s') i = Some PreDetach \/ (kind_at (log s') i = Some PreAttach /\ parent h n = None))) ->
+    heap_of s' = h.
+Proof. exact set_parent_atomic. Qed.
+Print Assumptions C03_parent_guarded.
+
+(** ... and that guard is the exact boundary: a _pre_attach veto on a MOVE
+    leaves the node detached (KF-C03-1) *)
+Theorem C03_parent_refuted : exists h n v faults r s',
+  Inv h /\ valid_op (length h) (SetParent n v) /\
+  set_parent true false faults n v (start h) = (r, s') /\
+  r = Err (HookExn 2) /\ kind_at (log s') 2 = Some PreAttach /\ heap_of s' <> h.
+Proof. exact parent_refuted. Qed.
+Print Assumptions C03_parent_refuted.
+
+(** children assignment: the refusals detected before anything is changed
+    (non-iterable argument, non-node or repeated child) leave the state -
+    links, hook counter and log - untouched *)
+Theorem C03_children_validation_guarded : forall typed asrt faults fu n a s e,
+  (a = CNotIterable /\ e = TypeError) \/
+  (exists xs, a = CList xs /\ fst (check_children typed [] xs s) = Err e) ->
+  set_children typed asrt faults (S fu) n a s = (Err e, s).
+Proof. exact set_children_validation. Qed.
+Print Assumptions C03_children_validation_guarded.
+
+(** children deletion / assignment: a _pre_detach_children veto changes no link *)
+Theorem C03_del_first_hook_guarded : forall typed asrt faults n s,
+  faults (cnt s) PreDetachChildren n = true ->
+  fst (del_children typed asrt faults n s) = Err (HookExn (cnt s)) /\
+  heap_of (snd (del_children typed asrt faults n s)) = heap_of s.
+Proof. exact del_children_first_hook. Qed.
+Print Assumptions C03_del_first_hook_guarded.
+
+(** the four other ways the full statement fails, each with a concrete
+    witness computed on the faithful model (and replayed on the implementation
+    by the correspondence check: known findings KF-C03-2..5) *)
+Theorem C03_del_refuted : exists h n faults r s',
+  Inv h /\ del_children true false faults n (start h) = (r, s') /\
+  r = Err (HookExn 3) /\ kind_at (log s') 3 = Some PreDetach /\ heap_of s' <> h.
+Proof. exact del_refuted. Qed.
+Print Assumptions C03_del_refuted.
+
+Theorem C03_children_stolen_refuted : exists h n xs r s',
+  Inv h /\ valid_op (length h) (SetChildren n (CList xs)) /\
+  set_children true false no_faults reentry_fuel n (CList xs) (start h) = (r, s') /\
+  r = Err LoopError /\ heap_of s' <> h.
+Proof. exact children_stolen_refuted. Qed.
+Print Assumptions C03_children_stolen_refuted.
+
+Theorem C03_children_rollback_veto_refuted : exists h n xs faults i r s',
+  Inv h /\ valid_op (length h) (SetChildren n (CList xs)) /\
+  set_children true false faults reentry_fuel n (CList xs) (start h) = (r, s') /\
+  r = Err (HookExn i) /\ kind_at (log s') i = Some PreAttach /\ heap_of s' <> h.
+Proof. exact children_rollback_veto_refuted. Qed.
+Print Assumptions C03_children_rollback_veto_refuted.
+
+(** a persistently vetoing _pre_attach_children: whatever the re-entrancy fuel,
+    the call ends in RecursionError and the former child stays detached *)
+Theorem C03_children_recursion_refuted : exists h n faults,
+  Inv h /\ forall fuel,
+  fst (set_children true false faults fuel n (CList []) (start h)) = Err RecursionError /\
+  (0 < fuel -> heap_of (snd (set_children true false faults fuel n (CList []) (start h))) <> h).
+Proof. exact children_recursion_refuted. Qed.
+Print Assumptions C03_children_recursion_refuted.
